@@ -28,7 +28,10 @@ CONSTANTS
   KindSets,     \* set of tuples <<kind of child 1, ..., kind of child NChildren>>, kinds "fd" | "tm"
   Inits,        \* subset of {"from", "default"}
   MaxLen,       \* bound on the number of calls of one behaviour; 0 = unbounded (the graph is finite anyway)
-  MaxChanges,   \* protocol: how many changes may pile up before the re-registration (documented protocol: 1)
+  MaxChanges,   \* protocol: how many changes may pile up before the re-registration (documented protocol: 2 = what the
+                \*           child returned + one remove()/replace() made during the same process_events, as in the
+                \*           crate's own test_transient_replace_unregister)
+  MaxUser,      \* protocol: how many remove()/replace() calls may pile up before the re-registration (documented: 1)
   AfterChange,  \* protocol: "rereg_only" = after a change the next registration call is the requested re-registration
                 \*           "any_regcall" = a parent unregister may come first (outside the documented protocol)
   ReEnable,     \* TRUE: LoopHandle::enable() on a registered parent whose child disabled itself (test_transient_disable)
@@ -185,6 +188,7 @@ DoMap(w) == IF w.st \in {"Keep", "Register", "Disable", "Replace"} THEN w.cur EL
 (* Calls and the environment (parent + event loop + user).                 *)
 (*   env.preg   the parent is registered (register/unregister alternate)   *)
 (*   env.pend   changes since the last registration call                   *)
+(*   env.upend  remove()/replace() calls since the last registration call  *)
 (*   env.fresh  next unused child identity                                 *)
 (***************************************************************************)
 RegOps == {"register", "reregister", "unregister"}
@@ -207,6 +211,7 @@ EnvAfter(env, call, r) ==
                [] call.op = "unregister" -> FALSE
                [] OTHER -> env.preg,
    pend  |-> IF call.op \in RegOps THEN 0 ELSE IF IsChange(call, r) THEN env.pend + 1 ELSE env.pend,
+   upend |-> IF call.op \in RegOps THEN 0 ELSE IF call.op \in {"remove", "replace"} THEN env.upend + 1 ELSE env.upend,
    fresh |-> IF call.op = "replace" THEN env.fresh + 1 ELSE env.fresh]
 
 (* The documented protocol, as a predicate on the next call:                                            *)
@@ -214,11 +219,14 @@ EnvAfter(env, call, r) ==
 (*   call that does this, or reregistering the event source some other way eg. via the top-level loop    *)
 (*   handle."  and  "the event loop might call reregister() on your source. All your source has to do    *)
 (*   is: self.mpsc_receiver.reregister(poll, token_factory)"                                             *)
+(*  "Either of these may be called at any time during processing or from outside the event loop": a      *)
+(*   remove()/replace() may follow what the child returned in the same process_events (one Reregister    *)
+(*   then covers both), but a second remove()/replace() before the re-registration is not covered.       *)
 (* Further registration calls (LoopHandle::update / disable / enable, the loop acting on Reregister) are *)
 (* legal at any time as long as the parent's register and unregister alternate.                          *)
 InProtocol(w, env, call) ==
   CASE call.op = "pe"                    -> env.pend = 0
-    [] call.op \in {"remove", "replace"} -> env.pend < MaxChanges
+    [] call.op \in {"remove", "replace"} -> env.pend < MaxChanges /\ env.upend < MaxUser
     [] call.op = "map"                   -> TRUE
     [] call.op = "register"              -> \/ ~env.preg
                                             \/ (ReEnable /\ env.preg /\ env.pend = 0 /\ w.st = "Disable")
@@ -243,14 +251,14 @@ ClausesOf(w, call, r, pregAfter) ==
 (* The state machine.                                                      *)
 (***************************************************************************)
 VARIABLES st, cur, old, reg, dropped, kind,    \* the wrapper and its children
-          preg, pend, fresh,                   \* environment / protocol monitor
+          preg, pend, upend, fresh,            \* environment / protocol monitor
           n,                                   \* calls made so far (only counted when MaxLen > 0)
           last                                 \* the last call: [call, pre, evs, ret, viol]
 
-vars == <<st, cur, old, reg, dropped, kind, preg, pend, fresh, n, last>>
+vars == <<st, cur, old, reg, dropped, kind, preg, pend, upend, fresh, n, last>>
 
 W == [st |-> st, cur |-> cur, old |-> old, reg |-> reg, dropped |-> dropped, kind |-> kind]
-E == [preg |-> preg, pend |-> pend, fresh |-> fresh]
+E == [preg |-> preg, pend |-> pend, upend |-> upend, fresh |-> fresh]
 NoLast == [call |-> Call("init", "none"), pre |-> "None", evs |-> <<>>, ret |-> "ok", viol |-> {}]
 
 Init ==
@@ -262,7 +270,7 @@ Init ==
   /\ old = 0
   /\ reg = [c \in Children |-> FALSE]
   /\ dropped = [c \in Children |-> FALSE]
-  /\ preg = FALSE /\ pend = 0 /\ n = 0
+  /\ preg = FALSE /\ pend = 0 /\ upend = 0 /\ n = 0
   /\ last = NoLast
 
 Do(call) ==
@@ -272,7 +280,7 @@ Do(call) ==
          e2 == EnvAfter(E, call, r)
      IN /\ st' = r.w.st /\ cur' = r.w.cur /\ old' = r.w.old
         /\ reg' = r.w.reg /\ dropped' = r.w.dropped /\ kind' = kind
-        /\ preg' = e2.preg /\ pend' = e2.pend /\ fresh' = e2.fresh
+        /\ preg' = e2.preg /\ pend' = e2.pend /\ upend' = e2.upend /\ fresh' = e2.fresh
         /\ n' = IF MaxLen = 0 THEN 0 ELSE n + 1
         /\ last' = [call |-> call, pre |-> st, evs |-> r.evs, ret |-> r.ret,
                     viol |-> ClausesOf(W, call, r, e2.preg)]
@@ -304,7 +312,7 @@ Spec == Init /\ [][Next]_vars
 TypeOK ==
   /\ st \in WStates /\ cur \in 0..NChildren /\ old \in 0..NChildren
   /\ reg \in [Children -> BOOLEAN] /\ dropped \in [Children -> BOOLEAN]
-  /\ kind \in KindSets /\ preg \in BOOLEAN /\ pend \in 0..MaxChanges /\ fresh \in 1..(NChildren + 1)
+  /\ kind \in KindSets /\ preg \in BOOLEAN /\ pend \in 0..MaxChanges /\ upend \in 0..MaxUser /\ upend <= pend /\ fresh \in 1..(NChildren + 1)
   /\ (st = "None") = (cur = 0)
   /\ (st = "Replace") = (old # 0)
   /\ cur # 0 => ~dropped[cur] /\ cur < fresh
